@@ -33,6 +33,21 @@ SCENARIOS = {
     "tcp_accept_busy": "Li ti0:4 tb0 tl0 ti1:4 tc1:0 R ti2:4 A0:2 X0 X1 X2 R Lc",
     "tcp_unaccepted": "Li ti0:4 tb0 tl0 ti1:0 tc1:0 R X0 X1 R Lc",
     "tcp_open": "Li ti0:0 to0:ns X0 R Lc",
+    # uv_*_open: the descriptor belongs to the handle only if the call returned 0.  Failing opens:
+    # remembered TCP_NODELAY / keepalive that cannot be applied (AF_UNIX socket, pipe), descriptors of the
+    # wrong kind, closed numbers, a descriptor another handle of the loop watches (UV_EEXIST); the caller's
+    # descriptor must still be open and the same file after uv_close(handle) and a loop run
+    "open_fail_nodelay": "Li ti0:0 tn0 to0:nx X0 R Lc",
+    "open_fail_keepalive": "Li ti0:0 tk0 to0:nx go3 X0 R gc3 Lc",
+    "open_fail_pipefd": "Li ti0:0 tn0 to0:np ti1:0 to1:np X0 X1 R Lc",
+    "open_ok_unix": "Li ti0:0 to0:nx pi1:0 po1:nx X0 X1 R Lc",
+    "open_wrong_kind": "Li ui0:0 uo0:np pi1:0 po1:f77 ti2:0 to2:f78 ui3:0 uo3:nx X0 X1 X2 X3 R Lc",
+    "open_eexist": "Li ti0:4 tb0 tl0 ti1:0 to1:w0 pi2:0 po2:w0 ui3:0 uo3:w0 X1 X2 X3 R X0 R Lc",
+    # a pipe server's connection uv_accept()ed into a tcp handle whose remembered TCP_NODELAY cannot be
+    # applied: uv_accept fails and closes the connection; the caller then opens a file (same number) and
+    # only afterwards closes the client handle
+    "accept_fail_nodelay": "Li pi0:0 pb0 pl0 pi1:0 pc1:0 R ti2:0 tn2 A0:2 go5 X2 R gc5 X0 X1 R Lc",
+    "accept_fail_keepalive": "Li pi0:0 pb0 pl0 pi1:0 pc1:0 R ti2:0 tk2 A0:2 gm5 X2 R gu5 X0 X1 R Lc",
     "pipe_accept": "Li pi0:0 pb0 pl0 pi1:0 pc1:0 R pi2:0 A0:2 X0 X1 X2 R Lc",
     "pipe_fail": "Li pi0:0 pb0:x pi1:0 pc1:x R pb1 X0 X1 R Lc",
     "pipe_stdio": "Li pi0:0 po0:f0 pi1:0 po1:f1 pi2:0 po2:f2 X0 X1 X2 R Lc",
